@@ -109,7 +109,10 @@ pub fn install(quiet: bool) {
         });
         // Panics that cannot unwind abort the process right after this hook returns.
         let fatal = msg.contains("unsafe precondition") || msg.contains("cannot unwind") || msg.contains("panic in a function that cannot unwind") || std::thread::panicking() && msg.contains("while processing panic");
-        if fatal {
+        if msg.contains("panic in a destructor during cleanup") {
+            // a second panic while the first one unwinds: Rust aborts. Safe by definition (no UB).
+            emit(&format!("SAFE-ABORT (a destructor panicked while another panic was unwinding; Rust aborts the process, no undefined behaviour): previous panic: {}", last_panic()));
+        } else if fatal {
             emit(&format!("{msg} at {loc}"));
         } else if !quiet || std::env::var_os("PQMC_DEBUG").is_some() {
             eprintln!("[panic] {msg} at {loc}");
